@@ -91,9 +91,6 @@ def impl(case):
             Ep = earley_rescaled.Earley(common.mk_cfg(case["cfg"], "Float"))
             lp = []
             for x in case["xs"]:
-                if not x:
-                    lp.append(None)
-                    continue
                 try:
                     import warnings
                     with warnings.catch_warnings():
@@ -142,7 +139,10 @@ def long_cases():
 def corpus():
     f4 = {"S": "S", "V": ["a", "b"], "rules": [["1/2", "N1", ["b"]], ["3/10", "N1", ["a", "b"]], ["1/5", "N1", ["b", "N1"]], ["1/10", "S", ["N1", "N1"]],
                                                  ["1/4", "N1", ["S", "a"]], ["3/10", "S", ["a"]], ["1/5", "N1", ["a"]], ["1/10", "N1", ["b", "N1"]]]}
-    return [{"shape": "corpus_F4", "finite": False, "cfg": f4, "ctxs": [[], ["a"], ["a", "a"], ["a", "a", "b"]], "xs": [["a", "a", "b"], ["a"]], "lms": LMS, "jitter": None}]
+    # F19: logp of the EMPTY string on the rescaled parser of a grammar that derives it
+    f19 = {"S": "S", "V": ["a"], "rules": [["1/4", "S", []], ["1/2", "S", ["a", "S"]], ["1/4", "S", ["a"]]]}
+    return [{"shape": "corpus_F4", "finite": False, "cfg": f4, "ctxs": [[], ["a"], ["a", "a"], ["a", "a", "b"]], "xs": [["a", "a", "b"], ["a"]], "lms": LMS, "jitter": None},
+            {"shape": "corpus_F19", "finite": False, "cfg": f19, "ctxs": [[], ["a"]], "xs": [[], ["a"], ["a", "a"]], "lms": LMS, "jitter": None}]
 
 
 def run(ctx):
@@ -263,7 +263,7 @@ def run(ctx):
                         evaluations += 1
                         if isinstance(v, dict):
                             semantic.append(_viol(c, hs, name + ".logp", x, v))
-                        elif ok and o > 0 and not (abs(v - math.log(float(o))) <= 1e-6 * max(1.0, abs(v))):
+                        elif ok and o > 0 and not (math.isfinite(v) and abs(v - math.log(float(o))) <= 1e-6 * max(1.0, abs(v))):
                             # logp of the prefix-grammar parser on x·EOS = log weight(x)
                             semantic.append(_viol(c, hs, name + ".logp", x, {"impl": v, "log_weight": math.log(float(o))}))
                         elif ok and o == 0 and v > -1e300 and not math.isinf(v):
@@ -281,7 +281,7 @@ def run(ctx):
                     evaluations += 1
                     if isinstance(v, dict):
                         semantic.append(_viol(c, hs, "rescaled_parser.logp", x, v))
-                    elif ok and o > 0 and not (abs(v - math.log(float(o))) <= 1e-6 * max(1.0, abs(v))):
+                    elif ok and o > 0 and not (math.isfinite(v) and abs(v - math.log(float(o))) <= 1e-6 * max(1.0, abs(v))):
                         semantic.append(_viol(c, hs, "rescaled_parser.logp", x, {"impl": v, "log_weight": math.log(float(o))}))
                     elif ok and o == 0 and not (math.isinf(v) and v < 0):
                         semantic.append(_viol(c, hs, "rescaled_parser.logp", x, {"impl": v, "log_weight": "-inf"}))
